@@ -1541,7 +1541,15 @@ func (fr *Frame) sliceOp(st *State, x *ssa.Slice) *Val {
 		if fr.Safety && c.noObligations == 0 {
 			c.oblige(fr, "safe", "slice@"+c.posKey(x.Pos()), st, And(Le(Num(0), lo), Le(lo, hi), Le(hi, mx), Le(mx, base.Cap)), "slice bounds", x.Pos())
 		}
-		return &Val{K: KSlice, T: x.Type(), X: base.X, Off: Add(base.Off, lo), Len: Sub(hi, lo), Cap: Sub(mx, lo)}
+		res := &Val{K: KSlice, T: x.Type(), X: base.X, Off: Add(base.Off, lo), Len: Sub(hi, lo), Cap: Sub(mx, lo)}
+		// abstract byte strings: s[1:] is the tail of s
+		if eb, ok := under(bt.Elem()).(*types.Basic); ok && eb.Kind() == types.Uint8 && x.High == nil && lo.IsConst() && lo.Val.Cmp(bigOne) == 0 {
+			arr := Select(st.heapGet("S:byte", SArr(SInt, SArr(SInt, SInt))), base.X)
+			whole := c.bytesVal(arr, base.Off, base.Len)
+			tail := c.bytesVal(arr, res.Off, res.Len)
+			c.addFact(Implies(Le(Num(1), base.Len), Eq(tail, c.btail(whole))))
+		}
+		return res
 	case *types.Basic: // string
 		ln := App("str.len", SInt, base.X)
 		if x.High != nil {
